@@ -1,7 +1,7 @@
 (* C09 - Versioned references resolve to exactly the named definition or fail cleanly. Statements only.
    Model: Namespace/Reader.v (resolve, read = reading one definition without cache, readS = with the per-object
    cache / visitor / handler).  Proofs: Namespace/ReaderProofs.v, ReadPure.v, ReadCache.v. *)
-From Coq Require Import ZArith List Bool.
+From Coq Require Import ZArith List Bool Permutation.
 From PV Require Import Namespace.Reader Namespace.ReaderProofs Namespace.ReadPure Namespace.ReadCache Namespace.LoopProofs Namespace.FilesProofs.
 Import ListNotations.
 Open Scope Z_scope.
@@ -80,6 +80,17 @@ Theorem C09_reported : forall txt L, strict_unique L -> files_unique L -> forall
   ((exists st, run_targets txt L st0 targets = Ok st) <-> forall d, In d targets -> exists t, read_top txt d L = Ok t).
 Proof. exact run_targets_ok_iff. Qed.
 Print Assumptions C09_reported.
+
+(* ... and what _complete_read_function returns does not depend on the order in which the targets are read *)
+Theorem C09_target_order : forall txt L, strict_unique L -> files_unique L -> forall T1 T2,
+  Permutation T1 T2 -> NoDup T1 -> (forall d, In d T1 -> In d L) ->
+  match complete_read txt T1 L, complete_read txt T2 L with
+  | Ok o1, Ok o2 => odirect o1 = odirect o2 /\ otrans o1 = otrans o2
+  | Err _, Err _ => True
+  | _, _ => False
+  end.
+Proof. exact complete_read_target_order. Qed.
+Print Assumptions C09_target_order.
 
 (* Without case_unique the statement of C09_standalone is false (open finding F7): ns.A.1.0 has a field X.1.0,
    ns.X.1.0 has a field ns.a.1.0, and ns.a.1.0 exists next to ns.A.1.0.  Reading A succeeds (A itself is not a
